@@ -54,6 +54,7 @@ def cfg(tier):
         markers=("mat", "xfer"),
         max_ops=8 if tier == "quick" else 14,
         p_binary=0.08,
+        p_cfun=15,
     )
 
 
